@@ -4,12 +4,14 @@
    what is left, and the used liquidity never exceeds the bar's share; market and stop orders need the whole pending
    amount to fit.  Proved over every reachable state: what one bar fills, summed over all orders, is
    between 0 and the share of the bar's volume granted by the liquidity model (BarLiquidity.v).
-   C08_partial: the on-grid invariant of balances over whole histories (correspondence check + monitor). *)
-From Coq Require Import ZArith QArith List.
+   Proved over every reachable state (BalanceGrid.v): balances, amounts on hold, borrowed and available amounts are
+   multiples of the symbol's precision, given initial balances and explicitly requested loan amounts on the grid and no
+   pair configured finer than its symbols -- also after rejected requests and operations that aborted half-way. *)
+From Coq Require Import ZArith QArith Qround List.
 From Basana Require Import Num.DecQ Num.DecQProofs Exchange.Model Exchange.OrderProofs Exchange.FeeProofs
      Exchange.LifeProofs Exchange.Prims Exchange.Structure Exchange.LedgerProofs Exchange.BarLiquidity
      Exchange.Reconfig Exchange.ReconfigProofs
-     Exchange.FillTimes Exchange.GridProofs.
+     Exchange.FillTimes Exchange.GridProofs Exchange.BalanceGrid.
 Import ListNotations.
 Open Scope Q_scope.
 
@@ -119,4 +121,47 @@ Example C08_grid_premises_met :
 Proof.
   cbv zeta. split; [unfold cfg_ok; cbn; discriminate|]. split; [repeat constructor; cbn; discriminate|].
   vm_compute. repeat split; reflexivity.
+Qed.
+
+(* whole history: no sub-precision dust.  In every reachable state the balance, the amount on hold, the borrowed amount
+   and the available amount of every symbol with a configured precision are multiples of that precision -- provided the
+   initial balances and the amounts of explicitly requested loans are ([eG initial], [op_grid]) and no pair is configured
+   with a finer precision than its symbols ([pairs_fit]; true of every configuration that derives the pairs' precisions
+   from the symbols').  No premise on what happened before: rejected requests and operations that aborted with an
+   internal error included. *)
+Theorem C08_balances_on_grid_in_every_reachable_state : forall c initial ops x p,
+  pairs_fit c -> eG c initial -> Forall (op_grid c) ops -> get_sym_prec c x = Ok p ->
+  let a := s_acct (run c (init_st initial) ops) in
+  on_grid p (vget (bal a) x) /\ on_grid p (vget (hold a) x) /\ on_grid p (vget (bor a) x) /\ on_grid p (avail a x).
+Proof. exact balances_on_grid. Qed.
+Print Assumptions C08_balances_on_grid_in_every_reachable_state.
+
+Theorem C08_derived_pair_precisions_fit : forall c, c_pair_info c = [] -> c_default_pair c = None -> pairs_fit c.
+Proof. exact pairs_fit_derived. Qed.
+Print Assumptions C08_derived_pair_precisions_fit.
+
+(* the premises are met: loans, an auto-borrowing order, partial fills with a fee that needs rounding up, interest
+   truncated to the grid; every reported amount is a multiple of 0.01 (USD) / 0.001 (BTC) *)
+Example C08_balance_grid_premises_met :
+  let cnd := mkCond 2%positive 7 3600000000%Z (1#100) (1#2) in
+  let c := mkCfg [(1%positive, 3%nat); (2%positive, 2%nat)] [] None (PctFee (33#100) 0) (VolShare 25 0)
+                 (Margin 2%positive (Some cnd) []) in
+  let p := (1%positive, 2%positive) in
+  let initial := [(1%positive, 1#2); (2%positive, 100000#100)] in
+  let ops := [OBar p 60000000%Z (mkBar (10033#100) (10133#100) (9933#100) (10033#100) (37#3));
+              OLoan 2%positive (25050#100); OCreate (KLimit (10101#100)) Buy p (4321#1000) true true;
+              OBar p 120000000%Z (mkBar (10033#100) (10133#100) (9933#100) (10077#100) (37#3));
+              OBar p 1920000000%Z (mkBar (10077#100) (10133#100) (9933#100) (10077#100) 40); ORepay 0%nat] in
+  let a := s_acct (run c (init_st initial) ops) in
+  pairs_fit c /\ eG c initial /\ Forall (op_grid c) ops /\
+  map (fun x => Qred (vget (bal a) x * 1000)) [1%positive; 2%positive] =
+    map (fun x => inject_Z (Qfloor (vget (bal a) x * 1000))) [1%positive; 2%positive] /\
+  Qeq_bool (vget (bal a) 1%positive) (1#2) = false.
+Proof.
+  cbv zeta. split; [apply pairs_fit_derived; reflexivity|].
+  split.
+  - intros kv [<-|[<-|[]]] q Hq; cbn in Hq; inversion Hq; subst q; [exists 500%Z | exists 100000%Z]; vm_compute; reflexivity.
+  - split.
+    + repeat constructor. intros q Hq. cbn in Hq. inversion Hq; subst q. exists 25050%Z. vm_compute. reflexivity.
+    + vm_compute. split; reflexivity.
 Qed.
